@@ -2,6 +2,19 @@
 
 pub const C11_TOL: f64 = 4e-14;
 
+/// Role of the open finding F4 (known_findings.json): polar-cap points on / within 2^-40 of a base-cell seam, and the corners at the
+/// base of the caps (|y| within 2^-40 of 1, x within 2^-40 of an even integer).
+pub fn f4_role(x: f64, y: f64) -> bool {
+  let eps = 9.094947017729282e-13;   // 2^-40
+  let ay = if y < 0.0 { -y } else { y };
+  if ay <= 1.0 - eps { return false; }
+  let mut q = (x / 2.0) as u64 as f64;
+  if q > 3.0 { q = 3.0; }
+  let u = x - (2.0 * q + 1.0);
+  let au = if u < 0.0 { -u } else { u };
+  au >= (2.0 - ay) - 2.0 * eps
+}
+
 pub fn c11_n_hash(nside: u32) -> u64 { 12 * (nside as u64) * (nside as u64) }
 
 /// Native check of one position: range, containment (reference projection + RING centre), offsets, inverse.
@@ -40,6 +53,8 @@ pub fn p_c11_pullback(nside: u32, x: f64, y: f64) {
   let xm = x.rem_euclid(8.0);
   let (lon, lat) = hp::unproj(xm, y);
   p_c11_neighbourhood(nside, lon, lat, 16);
+  if x < 0.0 && x >= -8.0 { let (lon2, lat2) = hp::unproj(x, y); p_c11_neighbourhood(nside, lon2, lat2, 16); }   // negative longitudes
+  p_c11_neighbourhood(nside, -0.0, lat, 4);
   let mut k = 0;
   while k <= 8 { p_c11_neighbourhood(nside, 0.25 * REF_PI * k as f64, lat, 6); k += 1; }
 }
